@@ -231,3 +231,12 @@ def r3(ctx: Ctx) -> None:
             ok = ("c", ("a", recv, "must_be_refined"), (s[2][0],), ()) in facts if s is not None and s[2] else False
             if not ok:
                 ctx.report(gf.where, "refine-unguarded", "the allocation is refined without must_be_refined(threshold) being true", lineno=node.lineno, facts=facts_text(facts))
+
+
+
+@rule("C10", "R4.geometry-primitives", "SHARED(C18)",
+      'the initial grid the optimiser starts from tiles the die: Rectangle.rectangle_grid / duplicate satisfy the C18 tiling laws -- evaluated for the helper behind Die.initial_grid', floor=6)
+def shared_geometry(ctx: Ctx) -> None:
+    from . import C18 as _c18
+    from .common import support
+    support(ctx, [_c18.r5, _c18.r6], {"Rectangle.rectangle_grid", "Rectangle.duplicate"})
